@@ -384,4 +384,105 @@ example : ValidNoExt exDoc' ((Declared exDoc').get exDeclares') :=
 
 example : exDoc.Perm exDoc' := (List.reverse_perm exDoc).symm
 
+/-! ### extension merging is exact (all kinds of members) -/
+
+/-- no clash ⇒ `appendNew` succeeds (converse of `appendNew_rejects_dup`) -/
+theorem appendNew_ok_of_nodup {α} (errE : Err) (name : α → String) (xs : List α) :
+    ∀ acc : List α, ((acc ++ xs).map name).Nodup → appendNew errE name acc xs = .ok (acc ++ xs) := by
+  induction xs with
+  | nil => intro acc _; simp [appendNew, pure, Except.pure]
+  | cons x xs ih =>
+    intro acc hn
+    have hx : name x ∉ acc.map name := by
+      intro hm
+      rw [List.map_append] at hn
+      exact (List.nodup_append.mp hn).2.2 _ hm (name x) (by simp) rfl
+    have hany : acc.any (fun y => name y == name x) = false := any_name_false name acc (name x) hx
+    simp only [appendNew, hany, Bool.false_eq_true, if_false]
+    have := ih (acc ++ [x]) (by simpa [List.append_assoc] using hn)
+    simpa [List.append_assoc] using this
+
+private theorem mapM_append_ok {α β} (f : α → R β) : ∀ (l₁ l₂ : List α) (r₁ r₂ : List β),
+    l₁.mapM f = .ok r₁ → l₂.mapM f = .ok r₂ → (l₁ ++ l₂).mapM f = .ok (r₁ ++ r₂) := by
+  intro l₁
+  induction l₁ with
+  | nil => intro l₂ r₁ r₂ h1 h2; simp [pure, Except.pure] at h1; subst h1; simpa using h2
+  | cons x xs ih =>
+    intro l₂ r₁ r₂ h1 h2
+    rw [List.cons_append, List.mapM_cons]
+    rw [List.mapM_cons] at h1
+    cases hx : f x with
+    | error e => rw [hx] at h1; simp [bind, Except.bind] at h1
+    | ok b =>
+      rw [hx] at h1
+      simp only [bind, Except.bind] at h1 ⊢
+      cases hl : xs.mapM f with
+      | error e => rw [hl] at h1; simp at h1
+      | ok bs =>
+        rw [hl] at h1
+        simp only [pure, Except.pure, Except.ok.injEq] at h1
+        subst h1
+        rw [ih l₂ bs r₂ hl h2]
+        rfl
+
+/-- **Extensions are merged exactly, in document order** — the generic step shared by `_extend_object_type`
+    (fields, interfaces), `_extend_interface_type`, `_extend_union_type`, `_extend_enum_type` and
+    `_extend_input_object_type`: if the members of every extension block build (`news`) and no name is repeated
+    among the existing and the new members, the fold over the blocks returns the existing members followed by
+    the members of the blocks in the order written — nothing dropped, duplicated or reordered. -/
+theorem extension_merge_exact {E α β} (errE : Err) (bf : α → R β) (name : β → String) (sel : E → List α) :
+    ∀ (exts : List E) (base : List β) (news : E → List β),
+      (∀ e ∈ exts, (sel e).mapM bf = .ok (news e)) →
+      ((base ++ exts.flatMap news).map name).Nodup →
+      exts.foldlM (fun acc e => do let new ← (sel e).mapM bf; appendNew errE name acc new) base = .ok (base ++ exts.flatMap news) := by
+  intro exts
+  induction exts with
+  | nil => intro base news _ _; simp [pure, Except.pure]
+  | cons e es ih =>
+    intro base news hb hn
+    have he := hb e (by simp)
+    have hn1 : ((base ++ news e).map name).Nodup := by
+      simp only [List.flatMap_cons, ← List.append_assoc, List.map_append] at hn ⊢
+      exact (List.nodup_append.mp hn).1
+    have step : (do let new ← (sel e).mapM bf; appendNew errE name base new) = Except.ok (base ++ news e) := by
+      rw [he]; exact appendNew_ok_of_nodup errE name (news e) base hn1
+    have hn2 : (((base ++ news e) ++ es.flatMap news).map name).Nodup := by
+      simpa [List.flatMap_cons, List.append_assoc] using hn
+    have := ih (base ++ news e) news (fun e' he' => hb e' (by simp [he'])) hn2
+    rw [List.foldlM_cons, List.flatMap_cons, ← List.append_assoc]
+    show ((do let new ← (sel e).mapM bf; appendNew errE name base new) >>= fun acc' => es.foldlM _ acc') = _
+    rw [step]
+    exact this
+
+/-- instance: `_extend_enum_type` — a valid set of `extend enum` blocks yields the base values followed by the
+    new values in document order -/
+theorem extend_enum_exact (env : Env) (exts : List TypeDef) (t : TypeD) (hk : t.kind = .enum)
+    (hkinds : ∀ e ∈ exts, e.name = t.name → e.kind = .enum) (news : TypeDef → List EnumValD)
+    (hb : ∀ e ∈ exts.filter (·.name == t.name), e.values.mapM buildEnumValue = .ok (news e))
+    (hn : ((t.values ++ (exts.filter (·.name == t.name)).flatMap news).map (·.name)).Nodup) :
+    extendType env exts t = .ok { t with values := t.values ++ (exts.filter (·.name == t.name)).flatMap news } := by
+  have hmine : ((exts.filter (·.name == t.name)).any fun e => e.kind != t.kind) = false := by
+    rw [List.any_eq_false]
+    intro e he
+    simp only [List.mem_filter, beq_iff_eq] at he
+    simp [hkinds e he.1 he.2, hk]
+  have := extension_merge_exact (.lib .ext) buildEnumValue (·.name) (·.values) (exts.filter (·.name == t.name)) t.values news hb hn
+  rw [hk] at hmine
+  unfold extendType
+  simp only [hmine, Bool.false_eq_true, if_false, hk]
+  rw [this]
+  rfl
+
+/-- C11 with extensions, full statement under the hypothesis that excludes finding S8 (`NoS8`: every member of the
+    document builds to the same thing over the definitions alone and over the merged definitions). NOT proved yet:
+    what is machine-checked is its extension-free case (`build_exact_noext`), the exact merge step for every
+    member kind (`extension_merge_exact`, instance `extend_enum_exact`), exact collection (`collect_ok`,
+    `collect_exact`) and the refutation of the statement without `NoS8` (`build_exact_refuted`). -/
+def BuildExactPartialStatement : Prop :=
+  ∀ (doc : Doc) (d : SchemaD), SdlValid doc → Declared doc = some d →
+    (∀ a : InputValDef, buildArgument (Env.of (typeDefs doc)) a = buildArgument (Env.of (merged doc)) a) →
+    hasThunkCycle (Env.of (typeDefs doc)) (typeDefs doc) = false → hasEagerCycle d.types = false →
+    d.directives.any (fun x => specifiedDirectives.contains x.name) = false →
+    ∃ s, build doc = .ok s ∧ SameContent s d
+
 end PyGql.Props.C11
